@@ -2,13 +2,16 @@ import MaltModel.Conv.Tmpl
 /-
 `Conv.IfExp` — mirror of `malt/converters/conditional_expressions.py`.
 
-`visit_IfExp` builds `ag__.if_exp(test, lambda: body, lambda: orelse, '<unparse(test)>')` from the node's
-children **as they are**: it never calls `generic_visit`, so the children of a conditional expression are
-never visited by this pass and a conditional expression nested anywhere inside another one stays native
-(DESIGN.md §8, known finding C04-ifexp-nested).  The model mirrors that: it is a `pre` hook.
+`visit_IfExp` (since fix 33af8cf) FIRST calls `generic_visit` — conditional expressions nested in the test or
+in a branch are converted too — and then builds
+`ag__.if_exp(test, lambda: body, lambda: orelse, '<unparse(test)>')` from the VISITED children: a `post` hook.
+(Before the fix it was a `pre` hook: no `generic_visit`, children never visited, a nested conditional stayed
+native; `hooksPre` keeps that shape only to state what the fix repaired.)
 
-`reprOf i` is the Python `repr` of `parser.unparse(node.test).strip()` for the IfExp with id `i`
-(CPython's `ast.unparse`, supplied by the harness as annotation `test_repr`; not modelled).
+`reprOf i` is the Python `repr` of `parser.unparse(node.test).strip()` for the IfExp with id `i`; the code now
+unparses the test AFTER visiting it (CPython's `ast.unparse`, not modelled: the harness supplies the unparse
+of the original test as annotation `test_repr`, compares the tree with this one argument masked, and checks on
+the real output that the argument is the unparse of the call's own first argument).
 -/
 namespace Malt.Conv.IfExp
 open Malt.Py Malt.Conv
@@ -16,23 +19,24 @@ open Malt.Py Malt.Conv
 def rewrite (reprOf : Nat → String) (i : Nat) (t b e : Expr) : Expr :=
   .call 0 (ag "if_exp") [tmplArg t, thunk b, thunk e, .const 0 "str" (reprOf i)] []
 
-def pre (reprOf : Nat → String) : Expr → Option Expr
-  | .ifexp i t b e => some (rewrite reprOf i t b e)
-  | _ => none
+/-- `visit_IfExp` after `generic_visit` -/
+def post (reprOf : Nat → String) : Expr → Expr
+  | .ifexp i t b e => rewrite reprOf i t b e
+  | e => e
 
-def hooks (reprOf : Nat → String) : Hooks := { pre := pre reprOf }
+def hooks (reprOf : Nat → String) : Hooks := { post := post reprOf }
 
 def visitE (reprOf : Nat → String) (e : Expr) : Expr := mapE (hooks reprOf) e
 def visitS (reprOf : Nat → String) (s : Stmt) : List Stmt := mapS (hooks reprOf) {} s
 def visitB (reprOf : Nat → String) (b : List Stmt) : List Stmt := mapB (hooks reprOf) {} b
 
-/-- What the pass would be with the proposed one-line fix (`node = self.generic_visit(node)` first):
-a `post` hook.  Used only to state what the fix buys (`C04_ifexp_routed_fixed`). -/
-def postFixed (reprOf : Nat → String) : Expr → Expr
-  | .ifexp i t b e => rewrite reprOf i t b e
-  | e => e
-def hooksFixed (reprOf : Nat → String) : Hooks := { post := postFixed reprOf }
-def visitEFixed (reprOf : Nat → String) (e : Expr) : Expr := mapE (hooksFixed reprOf) e
+/-- The pass as it was before 33af8cf (no `generic_visit`): used only for the regression statement
+`C04_ifexp_prefix_regression` (a revert of the fix leaves the former witness native). -/
+def preOld (reprOf : Nat → String) : Expr → Option Expr
+  | .ifexp i t b e => some (rewrite reprOf i t b e)
+  | _ => none
+def hooksOld (reprOf : Nat → String) : Hooks := { pre := preOld reprOf }
+def visitEOld (reprOf : Nat → String) (e : Expr) : Expr := mapE (hooksOld reprOf) e
 
 def reprOfTable (t : AnnoTable) (i : Nat) : String := (t.str i "test_repr").getD "''"
 
